@@ -199,6 +199,25 @@ def traceAbort (v : Version) (f : Flags) (rounds : List Bool) : List Event :=
 /-- The 1-epoch run of the code as it is on the pinned tree. -/
 def asIs (f : Flags) : List Event := traceG .asIs f [true]
 
+/-! ## The key is a parameter of the run
+
+A valid configuration need not carry an API key at all: `api_key` may be `""`, `None`, or the field
+/ the whole `wandb` section may be missing (`KeyState.absent`).  What a run writes is then what it
+writes with a key, except that there is no key that could be in any file: `traceGK .absent` is the
+trace with every key bit set (`Event.shape`).  `traceGK .present = traceG`. -/
+
+inductive KeyState
+  | present | absent
+  deriving DecidableEq, Repr
+
+def Event.withKey (k : KeyState) (e : Event) : Event :=
+  match k with
+  | .present => e
+  | .absent => e.shape
+
+def traceGK (k : KeyState) (v : Version) (f : Flags) (rounds : List Bool) : List Event :=
+  (traceG v f rounds).map (Event.withKey k)
+
 /-! ## Low-memory fallback
 
 `_create_data_loaders_torch_dataset` (called by `train()` after the re-save, before `fit`): with the
